@@ -168,6 +168,18 @@ def ensure_consumer(ctx, consumer_uuid, project_id, user_id,
         # consumer record
         consumer, created_new_consumer = _create_consumer(
             ctx, consumer_uuid, proj, user, cons_type_id)
+        if requires_consumer_generation and not created_new_consumer:
+            # We lost a race to create the consumer: it exists now, so the
+            # null consumer generation the caller sent (meaning "the consumer
+            # must not exist yet") no longer matches.
+            raise webob.exc.HTTPConflict(
+                'consumer generation conflict - '
+                'expected %(expected_gen)s but got %(got_gen)s' %
+                {
+                    'expected_gen': consumer.generation,
+                    'got_gen': consumer_generation,
+                },
+                comment=errors.CONCURRENT_UPDATE)
 
     # Also return the project, user, and consumer type from the request to use
     # for rollbacks.
